@@ -18,12 +18,13 @@ type C04Write struct {
 	Write string `json:"write"` // Memset | Zero | SetAtSweep | UnsafeNeg | UnsafeAdd | UnsafeAddScalar | CopyInto | ApplyUnsafe | RootSetAt
 	Code  int64  `json:"code"`
 	Src   *Opnd  `json:"src,omitempty"`
+	Eng   string `json:"eng,omitempty"` // "" (StdEng) | "f32" | "f64": the type-specialised engines (float tensors only)
 }
 
 func init() { register("C04.write", func() Case { return &C04Write{} }) }
 
 func (c *C04Write) NTKey() string {
-	return fmt.Sprintf("%s|%s|%v|%v|%s", c.DT, c.Write, c.A.Shape, c.A.L, layoutOf(c.Src))
+	return fmt.Sprintf("%s|%s|%v|%v|%s|%s", c.DT, c.Write, c.A.Shape, c.A.L, layoutOf(c.Src), c.Eng)
 }
 
 func (c *C04Write) Run() string {
@@ -39,9 +40,10 @@ func (c *C04Write) Run() string {
 		rec.Class("view-without-gaps")
 	}
 	t := b.T
+	withEngine(t, c.Eng)
 	n := len(A.arr.E)
 	want := make([]interface{}, n)
-	desc := fmt.Sprintf("%s through view %v%v of root %v (%s)", c.Write, c.A.Shape, c.A.L, b.RootShp, c.DT)
+	desc := fmt.Sprintf("%s through view %v%v of root %v (%s eng=%q)", c.Write, c.A.Shape, c.A.L, b.RootShp, c.DT, c.Eng)
 	var lerr error
 	var S *opndB
 	pan := try(func() {
@@ -84,6 +86,7 @@ func (c *C04Write) Run() string {
 				msg = m
 				return
 			}
+			withEngine(S.b.T, c.Eng)
 			if c.Write == "UnsafeAdd" {
 				// in-place arithmetic: the operation is picked by the case's code
 				op := []string{"Add", "Sub", "Mul"}[int(c.Code%3)]
@@ -388,6 +391,9 @@ func TestC04(t *testing.T) {
 				if w == "UnsafeAdd" || w == "CopyInto" {
 					s := genOpnd(rt, shape, rapid.SampledFrom(c06LayoutKinds).Draw(rt, "ls"), 31, 60, 0, "s")
 					c.Src = &s
+				}
+				if (w == "UnsafeAdd" || w == "UnsafeAddScalar") && d.IsFloat() && rapid.Bool().Draw(rt, "eng") {
+					c.Eng = map[string]string{"float32": "f32", "float64": "f64"}[d.Name]
 				}
 				return c
 			})
